@@ -108,6 +108,14 @@ CHECKS = {
         "maximum gap / LF rules.",
         "Sampled trajectories (quick: <= 60 s, thorough: up to hours of virtual time); +-1.5 ms slack; extra CAMs allowed; VAM < 100 ms gaps are a recorded known finding.",
     ),
+    "C17": (
+        "generated event schedules on the real DEN service with repetition threads parked on a virtual clock (deterministic discrete-event execution), checked against a schedule/identity oracle; reception into a real LDM",
+        "Overlapping events with drawn intervals, durations, positions and kinds are requested from the real DEN service whose sleeping "
+        "repetition threads are driven by the harness' virtual clock; every BTPDataRequest is decoded and compared with the expected schedule "
+        "(count, instants, GBC circle at the event position, stable and unique action id, reference times); received DENMs are fed through "
+        "DENMReceptionManagement into a real LDM and queried back through IF.LDM.4.",
+        "Sampled schedules (<= 5 events per station); 1 ms tolerance; LDM placed away from the event positions (C12 finding).",
+    ),
 }
 
 NOT_APPLICABLE = {
